@@ -318,6 +318,26 @@ def oracle_brl(args, out):
     over = b['ml'] != 'auto' and b['mr'] != 'auto'
     if not over and ml + mr + pb + w != cb[0] and ml + mr + pb + w <= cb[0]:
         return f'block replaced box: margin-left {ml} + width {w} + margin-right {mr} + padding/border {pb} != {cb[0]}'
+    # CSS 2.1 10.3.3 / 10.3.4 (proved for the model: Props/C13 used_margins_spec, doc_block_image_margins): a given
+    # margin is kept; two auto margins of a box that fits are equal and not negative (the image is centred); the
+    # margin box starts at the content edge of an ltr containing block and ends at the far edge of an rtl one
+    if len(nums) < 8:
+        return None
+    x = nums[7]
+    fits = pb + w + (0 if b['ml'] == 'auto' else b['ml']) + (0 if b['mr'] == 'auto' else b['mr']) <= cb[0]
+    for name, given, used in (('left', b['ml'], ml), ('right', b['mr'], mr)):
+        if given != 'auto' and used != given:
+            return f'block replaced box: margin-{name} {given} became {used}'
+        if given == 'auto' and (used < 0 if fits else used != 0):
+            return f'block replaced box: auto margin-{name} resolved to {used} ({"fits" if fits else "overflows"})'
+    if fits and b['ml'] == 'auto' and b['mr'] == 'auto' and ml != mr:
+        return f'block replaced box with margin: auto is not centred: margin-left {ml}, margin-right {mr}'
+    if cb[1] is True:
+        if x + ml + pb + w + mr != cx + cb[0]:
+            return (f'block replaced box in an rtl containing block [{cx}, {cx + cb[0]}]: margin box '
+                    f'[{x}, {x + ml + pb + w + mr}] does not end at the right content edge')
+    elif x != cx:
+        return f'block replaced box in an ltr containing block: margin box starts at {x}, the content edge is {cx}'
     return None
 
 
